@@ -733,7 +733,13 @@ func c10budget(c *Ctx, fn *ssa.Function) {
 				g := an.Guards(call)
 				found := false
 				for _, x := range g {
-					if bo, ok := x.Cond.(*ssa.BinOp); ok && bo.Op == token.LSS && x.Truth && strings.Contains(an.Path(bo.X), "MilliValue") {
+					// budget.MilliValue() < minimum holds (also written minimum > budget.MilliValue(), or negated >=)
+					rel, isRel := an.RelOf(x)
+					if !isRel {
+						continue
+					}
+					isBudget := func(v ssa.Value) bool { return backwardAll(v)[budget] }
+					if (rel.Op == token.LSS && isBudget(rel.X) && !isBudget(rel.Y)) || (rel.Op == token.GTR && isBudget(rel.Y) && !isBudget(rel.X)) {
 						found = true
 					}
 				}
